@@ -50,6 +50,11 @@ def records(rnd, thorough):
                     a = logic.mvarray(*strs)
                     return dict(got=np.asarray(a).reshape(-1).astype(int).tolist(), gshape=list(np.asarray(a).shape))
                 rec('mvarray', f, strs=[list(s) for s in strs])
+    # the empty pattern string: no patterns at all
+    def f0():
+        a = logic.mvarray('')
+        return dict(got=np.asarray(a).reshape(-1).astype(int).tolist(), gshape=list(np.asarray(a).shape))
+    rec('mvarray', f0, strs=[[]])
     # every alias alone
     for ch in ALPHA:
         def f(ch=ch):
